@@ -236,7 +236,12 @@ class DistinctCountCheck(AbstractCheck):
         ast.boolop,
         ast.operator,
         ast.unaryop,
-        ast.cmpop,
+        ast.Eq,
+        ast.NotEq,
+        ast.Lt,
+        ast.LtE,
+        ast.Gt,
+        ast.GtE,
     )
 
     def __init__(self, description, rule, available_field_names, location=None):
